@@ -83,7 +83,7 @@ var table = map[string]spec{
 		return []any{[]byte{1}, p.u0.ScriptHash(), util.Uint160{0xaa, 1}, int64(5), int64(9)}
 	}},
 	"balance.mint/3":     {kind: kAlphabet, args: func(p *prep) []any { return []any{p.u1.ScriptHash(), int64(5), []byte{1}} }},
-	"balance.newEpoch/1": {kind: kAlphabet, noEffect: true, args: func(p *prep) []any { return []any{int64(3)} }},
+	"balance.newEpoch/1": {kind: kAlphabet, args: func(p *prep) []any { return []any{int64(3)} }}, // releases the lock prepared with until = 3
 	"balance.transfer/4": {kind: kKey, falseOnRefusal: true, key: func(p *prep) *keys.PrivateKey { return p.u0k }, args: func(p *prep) []any {
 		return []any{p.u0.ScriptHash(), p.u1.ScriptHash(), int64(5), nil}
 	}},
@@ -225,15 +225,20 @@ func (p *prep) signerSets(s spec) []signerSet {
 	member := signerSet{"single-member", []world.SignerSpec{g(w.Members[0])}, false}
 	alpha := signerSet{"alphabet", []world.SignerSpec{g(w.Alphabet)}, false}
 	maj := signerSet{"majority", []world.SignerSpec{g(w.Majority)}, false}
+	// on committees of even size: half of the committee, the largest coalition that is not a majority
+	var half []signerSet
+	if p.n%2 == 0 {
+		half = []signerSet{{"half-committee", []world.SignerSpec{g(world.Multi(w.Privs, p.n/2))}, false}}
+	}
 	switch s.kind {
 	case kAlphabet:
 		maj.sufficient = majIsAlpha
 		alpha.sufficient = true
-		return []signerSet{nobody, stranger, member, maj, alpha}
+		return append(half, nobody, stranger, member, maj, alpha)
 	case kMajority:
 		alpha.sufficient = majIsAlpha
 		maj.sufficient = true
-		return []signerSet{nobody, stranger, member, alpha, maj}
+		return append(half, nobody, stranger, member, alpha, maj)
 	case kKey:
 		key := s.key(p)
 		other := p.u1k
@@ -602,9 +607,9 @@ func runVerify(b *runner.Batch, n int) {
 
 func sizes(tier string) []int {
 	if tier == "thorough" {
-		return []int{3, 1, 7}
+		return []int{3, 1, 4, 7, 6}
 	}
-	return []int{3, 1}
+	return []int{3, 1, 4}
 }
 
 func runC03(b *runner.Batch) {
@@ -651,7 +656,7 @@ func runC03(b *runner.Batch) {
 func init() {
 	runner.Register(&runner.Check{
 		ID: "C03", Level: "exploration",
-		Rule: "The method list is read from the manifests compiled from the working tree (non-safe callable methods of 11 contracts). Each method gets a freshly prepared world (all contracts deployed, live container with roster, candidates, names, deposits) and is executed under every signer set of its requirement kind {nobody, stranger, single committee member, Majority where the Alphabet is required and vice versa, the named key without the Alphabet, the Alphabet without the named key, another key, the appointed admin of the name without its owner, the Inner Ring majority dismissed by a re-designation in the previous block, ...}, insufficient sets first, the sufficient one last, on committees of 3 and 1 (quick) / 3, 1 and 7 (thorough). Documented alternative witnesses (the appointed admin for NNS record methods, the Inner Ring majority designated in the previous block) are run as further sufficient sets; an insufficient set that reaches an update's version check counts as having passed the witness gate. Classification per transaction: effect (HALT with storage diff or notification) / inert (FAULT, rejected, or HALT without diff, notification or native token transfer). Safe methods are called inside a fully witnessed transaction; verify methods are invoked directly and used as contract witnesses of real transactions. distinct = (method, signer set, outcome, committee size).",
+		Rule: "The method list is read from the manifests compiled from the working tree (non-safe callable methods of 11 contracts). Each method gets a freshly prepared world (all contracts deployed, live container with roster, candidates, names, deposits) and is executed under every signer set of its requirement kind {nobody, stranger, single committee member, Majority where the Alphabet is required and vice versa, the named key without the Alphabet, the Alphabet without the named key, another key, the appointed admin of the name without its owner, the Inner Ring majority dismissed by a re-designation in the previous block, ...}, insufficient sets first, the sufficient one last, on committees of 3, 1 and 4 (quick) / 3, 1, 4, 7 and 6 (thorough); on even sizes half of the committee (n/2 of n) is a further insufficient set. Documented alternative witnesses (the appointed admin for NNS record methods, the Inner Ring majority designated in the previous block) are run as further sufficient sets; an insufficient set that reaches an update's version check counts as having passed the witness gate. Classification per transaction: effect (HALT with storage diff or notification) / inert (FAULT, rejected, or HALT without diff, notification or native token transfer). Safe methods are called inside a fully witnessed transaction; verify methods are invoked directly and used as contract witnesses of real transactions. distinct = (method, signer set, outcome, committee size).",
 		Assumptions: []string{"neo-go v0.107.0 VM, ledger and native contracts are the trusted base", "contracts are compiled at check time from /repo/contracts",
 			"update with sufficient witnesses is judged by reaching the version check (same-version fault); the successful upgrade itself is exercised by C16", "a method without a row in the table makes the run inconclusive"},
 		Batches: func(tier string) int { return 110 * len(sizes(tier)) }, // room for methods added to a manifest
